@@ -101,12 +101,13 @@ Fixpoint assoc (k : Z) (t : list (Z * option Z)) : option (option Z) :=
   match t with [] => None | (k', v) :: t' => if k =? k' then Some v else assoc k t' end.
 
 (* Constraint.checkToken:  limit = taster.get(typebyte, "not in list"); not in list -> BananaError if strictTaster else
-   Violation;  `if limit and size OP limit` -> Violation  (limit None or 0: unlimited) *)
+   Violation;  `if <limit is set> and size OP limit` -> Violation  (whether 0 counts as "set" is read from the source) *)
 Definition checkToken_base (taster : list (Z * option Z)) (strict : bool) (tb size : Z) : tv :=
   match assoc tb taster with
   | None => if strict then TBanana else TViol
   | Some None => TOk
-  | Some (Some l) => if negb (l =? 0) && scmp_eval token_size_cmp size l then TViol else TOk
+  | Some (Some l) =>
+      if (negb token_limit_zero_unlimited || negb (l =? 0)) && scmp_eval token_size_cmp size l then TViol else TOk
   end.
 
 Definition taster_of (c : ctr) : list (Z * option Z) :=
@@ -166,12 +167,12 @@ Inductive wobj :=
 Inductive child :=
 | ChList (ic : option ctr) (mx : option Z) | ChTuple (cs : option (list ctr))
 | ChDict (kv : option (ctr * ctr)) (mk : option Z) | ChSet (ic : option ctr) (mx : option Z)
-| ChFset (ic : option ctr) (mx : option Z) | ChText | ChBool (v : option bool) | ChNone.
+| ChFset (ic : option ctr) (mx : option Z) | ChText (mx : option Z) | ChBool (v : option bool) | ChNone.
 
 Definition free_child (ot : otype) : child :=
   match ot with
   | OtList => ChList None None | OtTuple => ChTuple None | OtDict => ChDict None None | OtSet => ChSet None None
-  | OtFset => ChFset None None | OtUnicode => ChText | OtBool => ChBool None | OtNone => ChNone
+  | OtFset => ChFset None None | OtUnicode => ChText None | OtBool => ChBool None | OtNone => ChNone
   end.
 
 (* parent.doOpen: `unslicer.setConstraint(c)`.  None = the isinstance assertion fails (AssertionError escapes
@@ -188,7 +189,7 @@ Definition child_of (ot : otype) (oc : option ctr) : option child :=
       | OtDict, CDict k v mk => Some (ChDict (Some (k, v)) mk)
       | OtSet, CSet ic mx _ => Some (ChSet (Some ic) mx)
       | OtFset, CSet ic mx _ => Some (ChFset (Some ic) mx)
-      | OtUnicode, CText _ _ => Some ChText
+      | OtUnicode, CText mx _ => Some (ChText mx)
       | OtBool, CBool v => Some (ChBool v)
       | _, _ => if setConstraint_asserts_exact_class then None else Some (free_child ot)
       end
@@ -232,11 +233,21 @@ Definition build (ch : child) (l : list obj) : obj :=
   end.
 
 (* leaf unslicers *)
-Definition recv_text (kids : list wobj) : rv :=
+(* UnicodeUnslicer.checkToken: a STRING body of more than factor*maxLength bytes cannot hold <= maxLength characters *)
+Definition text_body_too_long (mx : option Z) (vocab : bool) (size : Z) : bool :=
+  unicode_unslicer_checks_size && negb vocab &&
+  match mx with None => false | Some m => scmp_eval unicode_size_cmp size (unicode_size_factor * m) end.
+
+Definition recv_text (mx : option Z) (kids : list wobj) : rv :=
   match kids with
   | [] => RDeliver ONone                                   (* receiveClose returns self.string = None *)
-  | [WStr _ _ bs] => RDeliver (OText bs)                   (* UTF-8 decoding: identity on the ASCII texts the wire trees carry *)
-  | _ => RAbort                                            (* BananaError: not a string / already received a string *)
+  | WStr vocab size bs :: rest =>
+      if text_body_too_long mx vocab size then RViol
+      else match rest with
+           | [] => RDeliver (OText bs)                     (* bs: the code points the UTF-8 body decodes to *)
+           | _ => RAbort                                   (* BananaError: already received a string / not a string *)
+           end
+  | _ => RAbort                                            (* BananaError: UnicodeUnslicer only accepts strings *)
   end.
 
 Definition recv_bool (v : option bool) (kids : list wobj) : rv :=
@@ -289,7 +300,7 @@ Fixpoint recvw (oc : option ctr) (w : wobj) {struct w} : rv :=
                | None => RAbort
                | Some ch =>
                    match ch with
-                   | ChText => recv_text kids
+                   | ChText mx => recv_text mx kids
                    | ChBool v => recv_bool v kids
                    | ChNone => match kids with [] => RDeliver ONone | _ => RAbort end
                    | _ =>
@@ -309,12 +320,16 @@ Definition recv_kids : child -> list wobj -> nat -> krv := kids_with recvw.
 Fixpoint interleave {A} (a b : list A) : list A :=
   match a, b with x :: a', y :: b' => x :: y :: interleave a' b' | _, _ => [] end.
 
+(* length of the UTF-8 form of a text (Python's str.encode("UTF-8")) *)
+Definition utf8len (cp : Z) : Z := if cp <? 128 then 1 else if cp <? 2048 then 2 else if cp <? 65536 then 3 else 4.
+Definition utf8size (cps : list Z) : Z := fold_right (fun cp n => utf8len cp + n) 0 cps.
+
 Fixpoint slice (o : obj) : wobj :=
   match o with
   | OInt z => let '(tb, size) := int_token z in WInt tb size z
   | OFloat b => WFloat b
   | OBytes bs => WStr false (zlen bs) bs
-  | OText cps => WOpen OtUnicode [WStr false (zlen cps) cps]
+  | OText cps => WOpen OtUnicode [WStr false (utf8size cps) cps]
   | OBool b => WOpen OtBool [WInt tok_INT (if b then 1 else 0) (if b then 1 else 0)]
   | ONone => WOpen OtNone []
   | OList l => WOpen OtList (map slice l)
